@@ -86,6 +86,23 @@ def run(tier, seed, which="C03"):
         bylen = sorted(range(n), key=lambda j: (-len(seqs[j]), [-ord(c) for c in names[j]]))
         orders.append(bylen)
         add("n%d" % n, names, seqs, 5, orders, threads=4)
+    # records of unlike composition in one input: one record rich in ambiguity codes (a degenerate consensus, a primer) among
+    # clean nucleotide records, or a short nucleotide-looking peptide among proteins; every record takes the first place once
+    # (whatever kalign decides about the kind of sequence, it must decide it from the set, not from the order)
+    for i in range(6 if tier == "quick" else 60):
+        n = rng.randint(4, 7)
+        if i % 2 == 0:
+            L = rng.randint(90, 150)
+            seqs = gen.family(rng, n - 1, L, gen.DNA, sub=0.1, indel=0.03)
+            amb = set(rng.sample(range(len(seqs[0])), min(len(seqs[0]), rng.choice([8, 22, 35]))))
+            odd = "".join(rng.choice("RYKMSWBDHV") if k in amb else c for k, c in enumerate(seqs[0]))
+        else:
+            seqs = [x + "LKEF" for x in gen.family(rng, n - 1, rng.randint(60, 90), gen.AA, sub=0.15, indel=0.03)]
+            odd = gen.rand_seq(rng, "ACGTN", rng.choice([40, 180, 260]))
+        seqs.append(odd)
+        names = gen.names(rng, n)
+        orders = [list(range(n))] + [[k] + [j for j in range(n) if j != k] for k in range(n)] + [list(range(n))[::-1]]
+        add("mixed%d" % i, names, seqs, 5, orders, threads=rng.choice([1, 2]))
     V.sample(dict(group="tiny0", names=tiny[0][0], seqs=tiny[0][1], orders="all 24 permutations"))
     rel.run_groups(V, groups, wd, per_batch=3, timeout=600, pipeline=True)
     return V.finish(rule="groups = one named sequence set in several record orders (all n! for tiny inputs with length ties / prefix names / case-only name differences; "
